@@ -280,9 +280,20 @@ def prep_rule(chk, name, fm):
     ok = len(mc) == 1
     chk.ob("C17.R3", where, "manifest_cards=sum-of-counts", ok, "manifest_cards is the sum of the per-batch card counts", node=mc[0] if mc else fn, strength="N")
     asserts = [s for s in fn.body if isinstance(s, ast.Assert)]
-    tests = {norm(a.test): a for a in asserts}
-    a1 = next((a for t, a in tests.items() if t in (f"{MCN}<=max_cards", f"max_cards>={MCN}")), None)
-    a2 = next((a for t, a in tests.items() if t in (f"{MCN}>=n_cvrs", f"n_cvrs<={MCN}")), None)
+
+    def asserted(src):
+        """the assert whose condition (a named condition expanded) is equivalent to `src`"""
+        want_ = spec.cond_term(src)
+        for a in asserts:
+            try:
+                c_ = Tx().cond(expand_locals(a.test, fn, stop=(MCN,)))
+            except symx.Unsupported:
+                continue
+            if c_ not in (True, False) and aud.cond_equiv(c_, want_)[0]:
+                return a
+        return None
+    a1 = asserted(f"{MCN} <= max_cards")
+    a2 = asserted(f"{MCN} >= n_cvrs")
     branch = [s for s in fn.body if isinstance(s, ast.If) and MCN in norm(s.test)]
     cum = [s for s in fn.body if isinstance(s, ast.Assign) and norm(s.targets[0]) in ("manifest['cum_cards']",)]
     first_effect = min([s.lineno for s in branch + cum] or [10 ** 9])
@@ -307,9 +318,11 @@ def prep_rule(chk, name, fm):
                 if isinstance(k, ast.Constant) and k.value == col and norm(v) == PHN:
                     okrow = True
         ph0 = [s for s in fn.body if isinstance(s, ast.Assign) and norm(s.targets[0]) == PHN and s.lineno < b.lineno]
-        ok0 = len(ph0) == 1 and norm(ph0[0].value) == "0"
+        # phantoms = 0 otherwise: set before the branch, or in its else
+        ok0 = (len(ph0) == 1 and norm(ph0[0].value) == "0" and not b.orelse) or \
+              (not ph0 and len(b.orelse) == 1 and isinstance(b.orelse[0], ast.Assign) and norm(b.orelse[0].targets[0]) == PHN and norm(b.orelse[0].value) == "0")
         re_as = [s for s in b.body if isinstance(s, ast.Assign) and norm(s.targets[0]) == "manifest"]
-        ok = okc and okp and okrow and ok0 and len(re_as) == 1 and not b.orelse
+        ok = okc and okp and okrow and ok0 and len(re_as) == 1
         detail = dict(condition=norm(b.test), phantoms=norm(ph[0].value) if ph else None)
         # API resolution of the appending call
         pd_ = pandas_defs()
